@@ -199,7 +199,7 @@ def run(p, led, tier):
                 it._verdicts["v"] = ("EXECUTE", "PERMIT")
             return base_express(interp, args, kwargs)
         it.stubs["BioAgent.express"] = express
-        outer = it.call_fi(runm_, [obj, Unknown("user_prompt")], {})
+        outer = it.call_fi(runm_, [obj, Unknown("user_prompt", kind="str")], {})
         tok = outer.fields.get("approval_token") if isinstance(outer, Obj) else None
         rh = tok.fields.get("request_hash") if isinstance(tok, Obj) else None
         # afterwards the sub-request is submitted on its own: it must be judged (or answered from ITS cached refusal), never
